@@ -103,8 +103,12 @@ fn site_key(case: u64, s: u64) -> Vec<u8> {
     Ed25519SigningKey::create_from(&signature_key).export_verifying_key()
 }
 
-/// word number k -> a word of 4+ lower-case letters/digits; no word is a substring of another
+/// word number k -> a word of lower-case letters/digits; no word is a substring of another. Word 7 has exactly THREE
+/// characters, the shortest text the property speaks of (a value that is this word alone is a three-character string)
 pub fn word(k: u64) -> String {
+    if k == 7 {
+        return "q7z".to_string();
+    }
     format!("w{}x{}", k, (b'a' + (k % 26) as u8) as char)
 }
 
